@@ -375,6 +375,14 @@ func writeEvidence(P *Prog, prop string, pd *PropDef, res *checkResult, tier str
 	if len(slows) > 5 {
 		slows = slows[:5]
 	}
+	var slowQ []slow
+	for n, a := range res.agg {
+		slowQ = append(slowQ, slow{n, a.maxTime})
+	}
+	sort.Slice(slowQ, func(i, j int) bool { return slowQ[i].Time > slowQ[j].Time })
+	if len(slowQ) > 5 {
+		slowQ = slowQ[:5]
+	}
 	inl, hav, asm := map[string]bool{}, map[string]bool{}, map[string]bool{}
 	paths := 0
 	var notes []string
@@ -461,6 +469,7 @@ func writeEvidence(P *Prog, prop string, pd *PropDef, res *checkResult, tier str
 		"by_backend":               byBackend,
 		"solver_time_s":            solverTime,
 		"slowest":                  slows,
+		"slowest_single_query":     slowQ,
 		"inlined_functions":        sortedBoolKeys(inl),
 		"havoc_calls":              sortedBoolKeys(hav),
 		"assumed_contracts_used":   sortedBoolKeys(asm),
